@@ -42,6 +42,19 @@ var c10from = Register("C10", "C10.fromint", func(a c10FromArgs) *Violation {
 	if v := chk("FromInt64", d128.FromInt64(a.I), big.NewInt(a.I)); v != nil {
 		return v
 	}
+	for _, c := range []struct {
+		name string
+		call func() d128.Decimal
+	}{
+		{"FromInt64", func() d128.Decimal { return d128.FromInt64(a.I) }},
+		{"FromInt32", func() d128.Decimal { return d128.FromInt32(int32(a.I)) }},
+		{"FromUint64", func() d128.Decimal { return d128.FromUint64(a.U) }},
+		{"FromUint32", func() d128.Decimal { return d128.FromUint32(uint32(a.U)) }},
+	} {
+		if v := exactInAllModes(c.name+" of a machine integer", c.call(), c.call); v != nil {
+			return v
+		}
+	}
 	if v := chk("FromInt32", d128.FromInt32(int32(a.I)), big.NewInt(int64(int32(a.I)))); v != nil {
 		return v
 	}
@@ -85,6 +98,11 @@ var c10big = Register("C10", "C10.frombig", func(a c10BigArgs) *Violation {
 		return violf("FromInt(%s) = %s, want %s", abbr(a.I), got, want)
 	}
 	klass, _ := inexactClass(x)
+	if klass == "exact" && want.Class == ref.Finite {
+		if v := exactInAllModes("FromInt("+abbr(a.I)+")", d128.FromInt(i), func() d128.Decimal { return d128.FromInt(i) }); v != nil {
+			return v
+		}
+	}
 	bl := i.BitLen()
 	switch {
 	case want.Class == ref.Inf:
@@ -272,6 +290,9 @@ var c10rat = Register("C10", "C10.rat", func(a c10RatArgs) *Violation {
 	}
 	if !back.Equal(d) || back.Signbit() != d.Signbit() {
 		return violf("FromRat(Rat(%s)) = %s", n, ref.Decode(back))
+	}
+	if v := exactInAllModes("FromRat(Rat("+n.String()+"))", back, func() d128.Decimal { return d128.FromRat(r) }); v != nil {
+		return v
 	}
 	if inF14 {
 		st.Class("numerator-or-denominator-beyond-1e6145")
